@@ -191,6 +191,7 @@ func factsC09() {
 		"ingress.go NewIngressConverter: arguments of annotations.UpdateDynamicConfig")
 	addStrList("c09UpdateDynamicConfig", c08Skeleton(upd, funcDecl(upd, "UpdateDynamicConfig")), "annotations/updater.go UpdateDynamicConfig: skeleton")
 	factsC09Ctx()
+	factsC09Memo()
 }
 
 // c09SourceOf: how the annotations.Source handed to the idx-th call of `callee` inside node is built:
